@@ -102,7 +102,7 @@ Written(p, pre) ==
   CASE p.op \in {"insert", "iia", "cas"} -> a.v
     [] p.op = "incr" -> IF pre.p /\ ~S!Expired(cfg, pre, now) /\ S!IsCounter(pre.val)
                         THEN S!CounterVal(pre.val.n + a.d) ELSE S!CounterVal(a.d)
-    [] p.op = "patch" -> S!DocVal(a.ps)
+    [] p.op = "patch" -> S!DocValP(a.ps, IF pre.val.k = "d" THEN pre.val.id ELSE 0)
     [] p.op = "update_ttl" -> pre.val
     [] OTHER -> UnknownVal
 
